@@ -362,7 +362,9 @@ impl Scenario for C12 {
                     main_weight
                 );
             }
-            if clean && tip.1 != final_tip.1 && sibling_outweighs && tip.1 == side[0].hash && side[0].ts < main_sibling_ts {
+            // "read first" = file-name order: <timestamp>-<hash>.sai
+            let sibling_read_first = !side.is_empty() && (side[0].ts, side[0].hash) < (main_sibling_ts, c.recs[main_sibling].hash);
+            if clean && tip.1 != final_tip.1 && sibling_outweighs && tip.1 == side[0].hash && sibling_read_first {
                 // recorded finding: start-up re-runs the fork choice in file-name (timestamp) order. A stored
                 // sibling that carries an earlier timestamp than the main chain's block of its height is then seen
                 // first, and if its burn fee outweighs the main chain's blocks above the fork point (steeply
